@@ -15,7 +15,7 @@ def helper_processors(ctx):
     from sa.model import norm_compare
     from sa.pathvals import PathValues
     from sa.pattern import match_expr, match_stmt
-    from sa.deps import names_in
+    from sa.deps import names_in, pseudo
     from sa.paths import RAISE
     rp = ctx.N(repo.cls('dataflows.helpers.row_processor:row_processor').methods['process_row'])
     row = rp.params[1]
@@ -66,6 +66,65 @@ def helper_processors(ctx):
                     isinstance(t.comparators[0], ast.Constant) and t.comparators[0].value in want and \
                     link in names_in(t.left) and 'signature' in names_in(t.left):
                 got.setdefault(t.comparators[0].value, []).append(pv.value(ds))
+    # table form of the same dispatch: a dict literal keyed by the parameter names whose value is looked up with the
+    # callable's single parameter name and then applied to the link
+    tables_ = [d for d in ast.walk(fl.node) if isinstance(d, ast.Dict) and d.keys and
+               all(isinstance(k, ast.Constant) and k.value in want for k in d.keys)]
+    if not got and len(tables_) == 1:
+        tb = tables_[0]
+        tname = None
+        par = getattr(tb, '_parent', None)
+        if isinstance(par, ast.Assign) and pseudo(par.targets[0]):
+            tname = pseudo(par.targets[0])
+        used = False
+        for p in Enumerator(cap=4096, where=fl.qualname).body_paths(loop):
+            if p.term == RAISE:
+                continue
+            v = PathValues(p).value(ds)
+            e = match_expr('__W(%s)(%s, position=___)' % (link, ds), v) if v is not None else None
+            if e is None:
+                continue
+            w = e['__W']
+            # the looked-up wrapper: <table>.get(<key>) / <table>[<key>], possibly through a local; the key derives from
+            # signature(link)
+            for _ in range(4):
+                if isinstance(w, ast.Name):
+                    defs = [a.value for a in ast.walk(fl.node) if isinstance(a, ast.Assign) and pseudo(a.targets[0]) == w.id]
+                    # a hoisted helper result: `_ret = None` on the reject arm and `_ret = table.get(key)` on the other
+                    defs = [d_ for d_ in defs if not (isinstance(d_, ast.Constant) and d_.value is None)]
+                    if len(defs) != 1:
+                        break
+                    w = defs[0]
+            look = None
+            if isinstance(w, ast.Call) and isinstance(w.func, ast.Attribute) and w.func.attr == 'get' and len(w.args) == 1:
+                look = (w.func.value, w.args[0])
+            elif isinstance(w, ast.Subscript):
+                look = (w.value, w.slice)
+            if isinstance(w, ast.IfExp):
+                for arm in (w.body, w.orelse):
+                    if isinstance(arm, ast.Call) and isinstance(arm.func, ast.Attribute) and arm.func.attr == 'get' and len(arm.args) == 1:
+                        look = (arm.func.value, arm.args[0])
+                    elif isinstance(arm, ast.Subscript):
+                        look = (arm.value, arm.slice)
+            if look is not None and ((tname and pseudo(look[0]) == tname) or look[0] is tb or
+                                     (isinstance(look[0], ast.Dict) and ast.dump(look[0]) == ast.dump(tb))):
+                key = look[1]
+                for _ in range(4):
+                    kn = {n.id for n in ast.walk(key) if isinstance(n, ast.Name)}
+                    if 'signature' in kn and link in kn:
+                        used = True
+                        break
+                    nxt = None
+                    for nm in kn:
+                        defs = [a.value for a in ast.walk(fl.node) if isinstance(a, ast.Assign) and pseudo(a.targets[0]) == nm]
+                        if len(defs) == 1:
+                            nxt = defs[0]
+                    if nxt is None:
+                        break
+                    key = nxt
+        if used:
+            for k, v in zip(tb.keys, tb.values):
+                got.setdefault(k.value, []).append(ast.parse('%s(%s)(%s, position=position)' % (u(v), link, ds), mode='eval').body)
     for pname, helper in want.items():
         vals = got.get(pname, [])
         ok = bool(vals) and all(v is not None and match_expr('%s(%s)(%s, position=___)' % (helper, link, ds), v) is not None for v in vals)
